@@ -35,6 +35,7 @@ const (
 type poolEvent struct {
 	step, task, kind, obj int
 	rejected              bool
+	root                  int // evGive: the header the giver had obtained (obj is the view it hands over)
 }
 
 type taskState struct {
@@ -340,11 +341,7 @@ func (h *H[T]) C11(rc *runCtx) *Violation {
 			release := func(b *signal.Buffer[T], hdr *signal.Buffer[T], cy *cycle, cyc int) {
 				if cy.putMode == 3 {
 					t.Yield(sPut)
-					id := sim.ObjID(unsafe.Pointer(hdr))
-					ts.events = append(ts.events, poolEvent{step: t.Step, task: ti, kind: evGive, obj: id})
-					if b != hdr {
-						ts.events = append(ts.events, poolEvent{step: t.Step, task: ti, kind: evGive, obj: sim.ObjID(unsafe.Pointer(b))})
-					}
+					ts.events = append(ts.events, poolEvent{step: t.Step, task: ti, kind: evGive, obj: sim.ObjID(unsafe.Pointer(b)), root: sim.ObjID(unsafe.Pointer(hdr))})
 					sim.Tracef("  task %d cycle %d: hands obj#%d over to whoever takes it", ti, cyc, sim.ObjID(unsafe.Pointer(b)))
 					sim.HandoffGive(unsafe.Pointer(b), ti, cyc)
 					return
@@ -534,12 +531,34 @@ func (h *H[T]) C11(rc *runCtx) *Violation {
 	putStep := map[int]int{} // obj -> step of that put
 	holding := make([]int, len(states))
 	inTransit := map[int]bool{} // handed over, not yet taken (or never taken: then held for ever)
+	// A buffer is held as a lineage: the header Get returned and the views the
+	// holder made of it. A hand-over passes a view on; whoever takes it holds
+	// the giver's header too (same storage), and lets go of both when it puts
+	// the view or a slice of it back - whichever header the pool then recycles.
+	rootInTransit := map[int]int{} // giver's header -> number of its views in transit
+	transitRoot := map[int]int{}   // view in transit -> giver's header
+	parent := map[int]int{}        // taken view -> giver's header, while the taker holds it
+	// letGo ends the task's hold on x and on every header x was derived from
+	// through hand-overs; it returns the last one (the header a Get returned).
+	letGo := func(x, task int) int {
+		for {
+			if t, ok := holder[x]; ok && t == task {
+				delete(holder, x)
+			}
+			r, ok := parent[x]
+			if !ok {
+				return x
+			}
+			delete(parent, x)
+			x = r
+		}
+	}
 	recycles := 0
 	putsSoFar, getsAfterPut := 0, 0
 	for _, e := range all {
 		switch e.kind {
 		case evGet:
-			if inTransit[e.obj] {
+			if inTransit[e.obj] || rootInTransit[e.obj] > 0 {
 				v := violf("held-twice", "step %d: Get handed obj#%d to task %d while it is being handed from one task to another (obtained and not yet put back)", e.step, e.obj, e.task)
 				if e.step < firstStep {
 					first, firstStep = v, e.step
@@ -588,6 +607,7 @@ func (h *H[T]) C11(rc *runCtx) *Violation {
 				delete(holder, e.obj)
 				holding[e.task]--
 			}
+			letGo(e.obj, e.task) // a view taken from a hand-over: the givers' headers go with it
 			if !e.rejected {
 				putsSoFar++
 				lastPut[e.obj] = e.task
@@ -603,9 +623,30 @@ func (h *H[T]) C11(rc *runCtx) *Violation {
 			}
 			holder[e.obj] = e.task
 			holding[e.task]++
+			if r, ok := transitRoot[e.obj]; ok {
+				delete(transitRoot, e.obj)
+				if rootInTransit[r]--; rootInTransit[r] <= 0 {
+					delete(rootInTransit, r)
+				}
+				if other, held := holder[r]; held && other != e.task {
+					v := violf("held-twice", "step %d: task %d took a view of obj#%d from a hand-over while task %d holds that buffer", e.step, e.task, r, other)
+					if e.step < firstStep {
+						first, firstStep = v, e.step
+					}
+				}
+				holder[r] = e.task
+				parent[e.obj] = r
+			}
 		case evGive:
-			if t, ok := holder[e.obj]; ok && t == e.task {
-				delete(holder, e.obj)
+			_, held := holder[e.obj]
+			_, heldRoot := holder[e.root]
+			letGo(e.obj, e.task)
+			root := letGo(e.root, e.task) // through earlier hand-overs, to the header some Get returned
+			if root != e.obj {
+				rootInTransit[root]++
+				transitRoot[e.obj] = root
+			}
+			if held || heldRoot {
 				holding[e.task]--
 			}
 			inTransit[e.obj] = true
